@@ -715,6 +715,31 @@ Section AnalysisProofs.
     - now rewrite IH.
   Qed.
 
+  (* the estimator's values land on the good positions, in order; every
+     other position is NaN *)
+  Lemma place_select good : forall dens,
+    length dens = length (select good good) ->
+    select good (place D dnan good dens) = dens.
+  Proof.
+    induction good as [|[|] g IH]; intros dens H; simpl in *.
+    - destruct dens; [reflexivity|discriminate].
+    - destruct dens as [|d ds]; simpl in *; [discriminate|].
+      f_equal. apply IH. lia.
+    - now apply IH.
+  Qed.
+
+  Lemma place_bad good : forall dens (i : nat),
+    (i < length good)%nat -> nth i good true = false ->
+    nth i (place D dnan good dens) dnan = dnan.
+  Proof.
+    induction good as [|b g IH]; intros dens i Hi Hb; simpl in Hi; [lia|].
+    destruct b; simpl.
+    - destruct i as [|i]; simpl in Hb; [discriminate|].
+      destruct dens as [|d ds]; simpl; apply IH; auto; lia.
+    - destruct i as [|i]; simpl; [reflexivity|]. simpl in Hb.
+      apply IH; auto; lia.
+  Qed.
+
   Lemma good2_select_finite xs ys :
     Forall (fun v => finite v = true) (select (good2 xs ys) xs) /\
     Forall (fun v => finite v = true) (select (good2 xs ys) ys).
@@ -808,3 +833,46 @@ Proof.
   intros [|[|[|i]]] H; simpl in *; try reflexivity; try discriminate;
     destruct i; discriminate.
 Qed.
+
+(* ---- kde_multivariate: evaluation positions ------------------------------- *)
+
+Lemma transpose_two_rows : forall xo yo : list Z, length xo = length yo ->
+  map (fun j => [nth j xo 0; nth j yo 0]) (seq 0 (length xo))
+  = point_rows xo yo.
+Proof.
+  unfold point_rows.
+  induction xo as [|a xo IH]; intros [|b yo] Hl; simpl in *; try discriminate;
+    [reflexivity|].
+  f_equal. rewrite <- seq_shift, map_map. simpl. apply IH. lia.
+Qed.
+
+(* the fixed code hands exactly the points (x_j, y_j) to the estimator *)
+Lemma mv_points_correct xo yo : length xo = length yo ->
+  mv_points xo yo = Some (point_rows xo yo).
+Proof.
+  intros _. unfold mv_points, adjust_shape.
+  destruct ((zlen xo =? 2) && negb (2 =? 2)) eqn:E; [|reflexivity].
+  rewrite andb_false_r in E. discriminate.
+Qed.
+
+(* the code before the fix: right unless there are exactly two positions *)
+Lemma mv_points_vstack_partial xo yo : length xo = length yo ->
+  zlen xo <> 2 -> mv_points_vstack xo yo = Some (point_rows xo yo).
+Proof.
+  intros Hl Hn. unfold mv_points_vstack, adjust_shape.
+  assert (E : (2 =? 2) && negb (zlen xo =? 2) = true) by lia.
+  rewrite E. unfold transpose. rewrite Z.eqb_refl. cbn [orb]. f_equal.
+  unfold zlen. rewrite Nat2Z.id.
+  rewrite <- (transpose_two_rows xo yo Hl). apply map_ext. reflexivity.
+Qed.
+
+Lemma mv_points_vstack_refuted :
+  exists xo yo, length xo = length yo /\
+                mv_points_vstack xo yo <> Some (point_rows xo yo).
+Proof. exists [1; 2], [3; 4]. split; [reflexivity|]. vm_compute. discriminate. Qed.
+
+Example mv_points_example :
+  mv_points [1; 2] [3; 4] = Some [[1; 3]; [2; 4]] /\
+  mv_points_vstack [1; 2] [3; 4] = Some [[1; 2]; [3; 4]] /\
+  mv_points_vstack [1; 2; 5] [3; 4; 6] = Some [[1; 3]; [2; 4]; [5; 6]].
+Proof. repeat split; reflexivity. Qed.
